@@ -153,6 +153,24 @@ theorem memchrNul_framed (arr : List Nat) :
       · congr 2; omega
       · rfl
 
+/-- the bounded scan over exactly the array -/
+theorem scanNulBounded_framed (arr : List Nat) :
+    ∀ (pre post : List Nat),
+      scanNulBounded (pre ++ arr ++ post) pre.length arr.length
+        = some (Spec.StaticArray.strlen arr) := by
+  induction arr with
+  | nil => intro pre post; simp [scanNulBounded, Spec.StaticArray.strlen]
+  | cons b bs ih =>
+    intro pre post
+    simp only [List.length_cons, scanNulBounded, getElem?_framed_head, Spec.StaticArray.strlen_cons]
+    by_cases hb : b = 0
+    · simp [hb]
+    · simp only [hb, if_false]
+      have e : pre ++ b :: bs ++ post = (pre ++ [b]) ++ bs ++ post := by simp
+      have el : pre.length + 1 = (pre ++ [b]).length := by simp
+      rw [e, el, ih (pre ++ [b]) post]
+      rfl
+
 /-- number of NULs at the right end -/
 def trailingNuls (arr : List Nat) : Nat := (arr.reverse.takeWhile (fun b => b == 0)).length
 
@@ -245,7 +263,7 @@ theorem pad_framed (pre s rest post : List Nat) (n avail : Nat) (m : Spec.Static
 
 /-- the documented meaning of a modelled call (`none`: outside the documented
     domain — null pointer, unterminated source, invalid enum value, or the
-    constant-evaluation variant, which is treated separately below) -/
+    invalid enum value) -/
 def denote : Op → Option Spec.StaticArray.Op
   | .assignStringRaw (some mem) m =>
     if 0 ∈ mem then
@@ -267,7 +285,7 @@ def denote : Op → Option Spec.StaticArray.Op
   | .fill x => some (.fill x)
   | .strlen => some .strlen
   | .strlenR => some .strlenR
-  | .strlenCE => none
+  | .strlenCE => some .strlen
 
 /-- model outcome `o` on `pre ++ arr ++ post` is what the specification result
     `r` on `arr` prescribes: same array bytes, same iterator, frame untouched;
@@ -317,15 +335,5 @@ theorem fits_of_inContract (arr post : List Nat) (op : Op) (sop : Spec.StaticArr
     subst hd; simp only [Spec.StaticArray.InContract] at hc; omega
   · simp only [denote, Option.some.injEq] at hd
     subst hd; simp only [Spec.StaticArray.InContract] at hc; omega
-
-theorem strlenCE_framed (pre arr post : List Nat) (avail : Nat) (hav : arr.length ≤ avail) :
-    strlenCE ⟨pre.length, arr.length, avail⟩ (pre ++ arr ++ post)
-      = match scanNul (arr ++ post) with
-        | none => .ub
-        | some n => .ok (pre ++ arr ++ post) (some n) := by
-  have hsc : View.sizeCheck ⟨pre.length, arr.length, avail⟩ = true := by simp [View.sizeCheck, hav]
-  simp only [strlenCE, hsc, Bool.not_true, Bool.false_eq_true, if_false]
-  rw [List.append_assoc, List.drop_left]
-  rfl
 
 end Sbepp.Lemmas.StaticArray
